@@ -16,6 +16,7 @@ class PrimitiveObserver:
         self.events: List[dict] = []
         self.rank: Dict[object, int] = {}
         self._pending = None
+        self._composite = None
 
     def _rank(self, bi) -> int:
         if bi.uuid not in self.rank:
@@ -97,9 +98,79 @@ class PrimitiveObserver:
                 "cfg": sorted(cfg), "fn": sorted(fn), "ent": sorted(ent),
                 "hasfn": bool(cache.functions_by_block)}
 
+    def patch_code(self, code) -> dict:
+        """The assembled patch handed to insert(), unit-granular, before insert()
+        touches it (patch blocks are not in the module yet: decode their bytes
+        through a scratch byte interval)."""
+        uid = self.p.uid
+        ts = code.text_section
+        dec = _decoder(self.m.isa)
+        data = bytes(ts.data)
+        blocks, units, kinds = [], [], []
+        for b in ts.blocks:
+            blocks.append(uid(b))
+            kinds.append([uid(b), "code" if isinstance(b, gtirb.CodeBlock) else "data"])
+            if isinstance(b, gtirb.CodeBlock) and b.size:
+                bi = gtirb.ByteInterval(contents=data[b.offset:b.offset + b.size])
+                sb = gtirb.CodeBlock(offset=0, size=b.size, decode_mode=b.decode_mode)
+                bi.blocks.add(sb)
+                us = [[i.size, classify(i, self.m.isa)] for i in dec.get_instructions(sb)]
+                if sum(u[0] for u in us) != b.size:
+                    us.append([b.size - sum(u[0] for u in us), "bad"])
+            else:
+                us = [[1, "data"] for _ in range(b.size)]
+            units.append([uid(b), us])
+        cfg = []
+        for e in code.cfg:
+            lab = e.label
+            cfg.append([self.node(e.source), self.node(e.target), lab.type.name if lab else "None",
+                        bool(lab.conditional) if lab else False, bool(lab.direct) if lab else True])
+        syms = []
+        for s in code.symbols:
+            r = s._payload if isinstance(s._payload, gtirb.Block) else None
+            syms.append([s.name, self.node(r), bool(s.at_end) if r is not None else False])
+        return {"blocks": blocks, "units": units, "kind": kinds, "cfg": sorted(cfg), "syms": sorted(syms),
+                "proxies": sorted(uid(p) for p in code.proxies),
+                "nsec": len(code.sections)}
+
+    def composite(self, event: str, f: dict) -> None:
+        """insert() / delete() as wholes (hooks insert_begin/_end, delete_begin/_end)."""
+        a = f["args"]
+        kw = f["kwargs"]
+        cache, blk = a[0], a[1]
+        if event.endswith("_begin"):
+            self._composite = None
+            if blk.section is None:
+                return
+            args = {"b": self.p.uid(blk), "off": a[2]}
+            if event == "insert_begin":
+                args["repl"] = a[3]
+                args["code"] = self.patch_code(a[4])
+                args["proxy"] = False
+                args["len"] = 0
+            else:
+                args["len"] = a[3]
+                args["proxy"] = bool(a[4] if len(a) > 4 else kw.get("retarget_to_proxy", False))
+                args["repl"] = 0
+            self._composite = {"op": event[:-6], "sec": blk.section, "args": args,
+                               "pre": self.snapshot(blk.section, cache)}
+            return
+        pend, self._composite = self._composite, None
+        if pend is None or pend["op"] != event[:-4] or "error" in f:
+            return
+        res = f.get("result")
+        pend["args"]["last"] = self.p.uid(res) if res is not None else 0
+        if pend["op"] == "insert" and pend["args"]["code"]["nsec"] > 1:
+            return      # patches that add contents to other sections are not modelled
+        self.events.append({"op": pend["op"], "args": pend["args"], "pre": pend["pre"],
+                            "post": self.snapshot(pend["sec"], cache)})
+
     def __call__(self, event: str, f: dict) -> None:
         if event == "apply_begin":
             self.begin()
+            return
+        if event in ("insert_begin", "insert_end", "delete_begin", "delete_end"):
+            self.composite(event, f)
             return
         if event.endswith("_begin") and event != "apply_begin":
             blk = f.get("block") or f.get("block1")
